@@ -235,6 +235,37 @@ def replay(pattern, folders, opts, seq, by_path, witness):
                 return True, "step %d (%s of %s) raised %r" % (i, op, seq, ex)
             finally:
                 signal.alarm(0)
+        # the integrity verdicts must also be right on a damaged copy, at every point of the same session
+        if datas and ("Z" in seq or "T" in seq):
+            bad = bytearray(img)
+            pos = 32 + (8 if opts.get("packpos") else 0) + sum(len(x) for x in datas) - 1
+            bad[pos] ^= 0x01
+            if by_path:
+                p2 = os.path.join(d, "bad.7z")
+                open(p2, "wb").write(bytes(bad))
+                z2 = py7zr.SevenZipFile(p2)
+            else:
+                z2 = py7zr.SevenZipFile(io.BytesIO(bytes(bad)))
+            for i, op in enumerate(seq):
+                signal.alarm(6)
+                try:
+                    if op == "Z" and z2.testzip() is None:
+                        return True, "step %d of %s: testzip() certifies a damaged archive" % (i, seq)
+                    elif op == "T" and opts.get("packcrc") and z2.test() is not False:
+                        return True, "step %d of %s: test() does not report the damaged packed stream" % (i, seq)
+                    elif op == "R":
+                        z2.reset()
+                    elif op in "AE":
+                        try:
+                            z2.extractall(factory=BytesIOFactory(10 ** 6))
+                        except Exception:  # noqa  damage detected
+                            pass
+                except Hang:
+                    return True, "step %d (%s of %s) on the damaged copy: no return within 6 s" % (i, op, seq)
+                except Exception:  # noqa
+                    pass
+                finally:
+                    signal.alarm(0)
         return False, "sequence %s behaves as on a fresh archive" % seq
     finally:
         import shutil
